@@ -72,10 +72,10 @@ DRIVER_TIMEOUT = 1200
 RULE = ("mix of 4 case kinds: parser histories (22%: 1-60 requests through one token.Parser with secret/prevSecret, "
         "virtual clock advances incl. >24h and custom reset durations, counters dumped after each request), JWT gate "
         "histories (20%: same through one Authorize instance incl. unauthorized callbacks; tokens minted under secrets "
-        "{s1,s2,s3}, algs HS256/384/512/none/RS256-junk, exp/nbf/iat at +-1h, truncated/flipped/garbage tokens, "
+        "{s1,s2,s3}, algs HS256/384/512/none/RS256-junk, exp/nbf/iat at +-1h and at +40..250 s with the jwt clock (jwt.TimeFunc) moving 20..3000 s between requests, truncated/flipped/garbage tokens, "
         "Bearer/bearer/absent schemes), signed requests (43%: correctly signed + every single-field tampering + key/secret/"
         "fingerprint/header defects + timestamps at tol-1,tol,tol+1,+-5 and extreme/non-numeric values, strict and non-strict, "
-        "all methods, X-Request-Uri, encrypted bodies; body framing in {declared Content-Length, unknown length -1 via an opaque reader, chunked through a real httptest.Server, declared length through a real server, empty body} x {correct, body tampered, signed-for-empty-body with a body sent}), RPC authenticator histories (15%: miniredis hash contents x metadata "
+        "all methods, X-Request-Uri, encrypted bodies; body framing in {declared Content-Length, unknown length -1 via an opaque reader, chunked through a real httptest.Server, declared length through a real server, empty body} x {correct, body tampered, signed-for-empty-body with a body sent}), route groups on one engine (8%: 2-3 WithSignature groups with their own fingerprint->key tables over 3 RSA keys generated at run time, every (fp,key) pair in use sent to every group), RPC interceptor histories (9%: Unary/Stream interceptors with FullMethod names incl. health/reflection/empty), RPC authenticator histories (7%: miniredis hash contents x metadata "
         "shapes x strict x outages); the thorough tier adds the original and all 6 single-field/key tamperings of 200 base requests. non-trivial = a history with both an accepted and a refused request / a signed request "
         "on a guarded method with a parsable header / an RPC history with both outcomes; distinct = distinct canonical case JSON")
 TRUSTED = ["golang-jwt/jwt v4 (signature + time-claim verdict per (Authorization header, secret) tabulated by the driver by "
@@ -691,23 +691,25 @@ def enc_rpc(case, obs):
     return "CRpc (mkrc %s %s)" % (cbool(case["strict"]), clist(steps))
 
 
-def enc_grp_row(case, rq, o):
-    """one request of a group case as a Coq grp_case"""
+def enc_grp(case, obs):
     groups = clist(["(mkg %s %s %s)" % (clist([cpair(B(k["fp"]), cN(k["key"])) for k in g["keys"]]), cbool(g["strict"]), cZ(g["tol"]))
                     for g in case["groups"]])
-    rsa = clist([cpair(cpair(cN(i), B(o["secret"])), optB(r)) for i, r in enumerate(o["rsa"])])
-    key = base64.b64decode(o["keybytes"])
-    req = "(mkr %s %s %s %s %s %s %s)" % (B(o["method"]), B(o["path"]), B(o["query"]), B(""), B(o["header"]), B(rq["body"]), cZ(o["clen"]))
-    b64 = clist([cpair(B(rq["hmackey"]), copt(cbytes(key))), cpair(B(""), copt(cbytes(b"")))])
-    mac = clist([cpair(cpair(cbytes(key), B(o["sentcontent"])), B(o["sentmac"])), cpair(cpair(cbytes(key), B(o["signcontent"])), B(o["signmac"]))])
-    sha = clist([cpair(B(rq["body"]), B(o["sha"]))])
-    ts = go_parse_int(o["ts"])
-    q = "(mkq true %s %s %s %s %s %s %s %s)" % (cbytes(key), B(o["ts"]), copt(None if ts is None else cZ(ts)), B(o["sig"]),
-                                               B(o["method"]), B(o["path"]), B(o["query"]), B(rq["body"]))
-    hdr = {"": 0, "wrong-time": 1, "invalid": 2}.get(o["sighdr"], 9)
-    sig = "(mksc false 0%%Z %s %s [] %s [] %s %s %s None DecErr %s false false %s %s %s %s)" % (
-        cZ(o["now0"]), cZ(o["now1"]), req, b64, mac, sha, q, cZ(o["status"]), cbool(o["ran"]), cN(hdr), cbool(o["panic"]))
-    return "CGrp (mkgc %s %s %s %s %s %s)" % (groups, "%d%%nat" % rq["group"], rsa, B(rq["fp"]), cN(rq["enckey"]), sig)
+    reqs = []
+    for rq, o in zip(case["reqs"], obs["rows"]):
+        rsa = clist([cpair(cpair(cN(i), B(o["secret"])), optB(r)) for i, r in enumerate(o["rsa"])])
+        key = base64.b64decode(o["keybytes"])
+        req = "(mkr %s %s %s %s %s %s %s)" % (B(o["method"]), B(o["path"]), B(o["query"]), B(""), B(o["header"]), B(rq["body"]), cZ(o["clen"]))
+        b64 = clist([cpair(B(rq["hmackey"]), copt(cbytes(key))), cpair(B(""), copt(cbytes(b"")))])
+        mac = clist([cpair(cpair(cbytes(key), B(o["sentcontent"])), B(o["sentmac"])), cpair(cpair(cbytes(key), B(o["signcontent"])), B(o["signmac"]))])
+        sha = clist([cpair(B(rq["body"]), B(o["sha"]))])
+        ts = go_parse_int(o["ts"])
+        q = "(mkq true %s %s %s %s %s %s %s %s)" % (cbytes(key), B(o["ts"]), copt(None if ts is None else cZ(ts)), B(o["sig"]),
+                                                   B(o["method"]), B(o["path"]), B(o["query"]), B(rq["body"]))
+        hdr = {"": 0, "wrong-time": 1, "invalid": 2}.get(o["sighdr"], 9)
+        sig = "(mksc false 0%%Z %s %s [] %s [] %s %s %s None DecErr %s false false %s %s %s %s)" % (
+            cZ(o["now0"]), cZ(o["now1"]), req, b64, mac, sha, q, cZ(o["status"]), cbool(o["ran"]), cN(hdr), cbool(o["panic"]))
+        reqs.append("(mkgr %s %s %s %s %s)" % ("%d%%nat" % rq["group"], rsa, B(rq["fp"]), cN(rq["enckey"]), sig))
+    return "CGrp (mkgc %s %s)" % (groups, clist(reqs))
 
 
 def enc_rpci(case, obs):
@@ -738,7 +740,7 @@ PANIC_TERM = "CRpc (mkrc true [mkrs false [] None (0)%Z])"
 def encode(case, obs):
     if "driver_panic" in obs:
         return PANIC_TERM
-    return {"parser": enc_parser, "jwt": enc_jwt, "sig": enc_sig, "rpc": enc_rpc}[case["kind"]](case, obs)
+    return {"parser": enc_parser, "jwt": enc_jwt, "sig": enc_sig, "rpc": enc_rpc, "grp": enc_grp, "rpci": enc_rpci}[case["kind"]](case, obs)
 
 
 # ------------------------------------------------------------------------------------------- evidence
@@ -754,6 +756,8 @@ def nontrivial(case, obs):
         return len(rans) == 2
     if k == "sig":
         return case["method"] in ("GET", "POST", "PUT", "DELETE") and not case["noheader"] and case["intent"]["wellformed"]
+    if k == "grp":
+        return len({r["ran"] for r in obs["rows"]}) == 2
     codes = {r["code"] == 0 for r in obs["rows"]}
     return len(codes) == 2
 
@@ -766,8 +770,19 @@ def bucket(case, obs):
     if k in ("parser", "jwt"):
         out.append("%s:prev=%s" % (k, "none" if case["prev"] == "" else ("same" if case["prev"] == case["secret"] else "other")))
         out.append("%s:len=%s" % (k, "1-5" if len(case["reqs"]) <= 5 else ("6-20" if len(case["reqs"]) <= 20 else "21-60")))
-        contract = all((v["err"] or (v["valid"] and v["ismap"])) for per in obs["oracle"] for v in per.values())
+        contract = all((v["err"] or (v["valid"] and v["ismap"])) for per_t in obs["oracle"] for per in per_t for v in per.values())
         out.append("hyp:lib_contract" if contract else "hyp:LIB-CONTRACT-BROKEN")
+        # a header whose verdict under the configured secrets changes with the clock during this history
+        nt = len(obs["oracle"])
+        out.append("%s:clock-readings=%s" % (k, "1" if nt == 1 else ("2-3" if nt <= 3 else "4+")))
+        own = [x for x in (case["secret"], case["prev"]) if x]
+        seen = {}
+        for r in obs["rows"]:
+            key = "ok" if k == "parser" else "ran"
+            seen.setdefault(r["header"], set()).add(r[key])
+        changing = [h for h, vs in seen.items() if len(vs) == 2]
+        if changing:
+            out.append("%s:same-token-accepted-and-refused-as-time-passes" % k)
         if k == "parser":
             if any(len(r["counts"]) == 2 for r in obs["rows"]):
                 out.append("parser:both-secrets-counted")
@@ -799,8 +814,22 @@ def bucket(case, obs):
             out.append("sig:clock-ticked")
         if case["intent"]["variant"] == "routed-path" and obs["ran"]:
             out.append("note:routed-path-differs-from-signed-path-accepted")
+    elif k == "grp":
+        out.append("grp:groups=%d" % len(case["groups"]))
+        for rq, r in zip(case["reqs"], obs["rows"]):
+            g = case["groups"][rq["group"]]
+            conf = any(kk["fp"] == rq["fp"] and kk["key"] == rq["enckey"] for kk in g["keys"])
+            elsewhere = any(kk["fp"] == rq["fp"] and kk["key"] == rq["enckey"] for i, gg in enumerate(case["groups"]) if i != rq["group"] for kk in gg["keys"])
+            same_fp_other_key = any(kk["fp"] == rq["fp"] and kk["key"] != rq["enckey"] for kk in g["keys"])
+            out.append("grp:%s:%s:%d" % ("own-key" if conf else ("other-groups-key" if elsewhere else "unknown-key"),
+                                         "strict" if g["strict"] else "lax", r["status"]))
+            if same_fp_other_key and not conf:
+                out.append("grp:fingerprint-configured-here-with-another-key")
     else:
-        out.append("rpc:" + ("strict" if case["strict"] else "lax"))
+        out.append("%s:" % k + ("strict" if case["strict"] else "lax"))
+        if k == "rpci":
+            for op, r in zip([o for o in case["ops"] if o["op"] == "call"], obs["rows"]):
+                out.append("rpci:%s:%s:%s" % (op["mode"], "ran" if r["ran"] else "blocked", op["method"] or "<empty>"))
         for r in obs["rows"]:
             out.append("rpc:code=%d" % r["code"])
         if any(o["op"] == "down" for o in case["ops"]):
@@ -817,12 +846,20 @@ def explain(case, obs):
                 "(c04_jwt_iff), or a secret other than the two configured ones was counted")
     if k == "jwt":
         return ("the JWT gate's observed (status, handler ran, context claims) contradicts C04.Exec.jwt_spec_ok: handler must run "
-                "iff the library accepts the bearer token under the current or previous secret (c04_jwt_iff); then the context holds "
+                "iff the library accepts the bearer token under the current or previous secret AT THE TIME OF THE REQUEST (c04_jwt_iff, "
+                "c04_jwt_no_memory: a token accepted earlier must be refused once its exp has passed / before its nbf); then the context holds "
                 "exactly the non-registered claims (c04_claims_visible), otherwise 401 and no handler (c04_jwt_401_no_handler)")
     if k == "sig" and obs.get("panic"):
         return ("the signature gate PANICKED instead of answering (%s): a correctly signed request announcing type=1 whose body "
                 "base64-decodes to the empty string reaches codec.EcbDecrypt -> pkcs5UnPadding, which indexes src[len(src)-1]; "
                 "expected 400 from cryptohandler (c04_gate_panic_iff: the gate panics only if decryptBody does)" % obs.get("panicval"))
+    if k == "grp":
+        return ("a signature-protected route group of the engine answered a request against C04.Exec.grp_spec_ok: on group i's routes the handler "
+                "must run iff the (fingerprint, key) pair the client used is configured FOR GROUP i (and timestamp/HMAC are right under group i's "
+                "tolerance); a pair configured for another group only must get 403 in a strict group (c04_sig_group_isolation, c04_sig_group_local)")
+    if k == "rpci":
+        return ("Unary/StreamAuthorizeInterceptor contradict C04.Exec.rpci_spec_ok: the decision must be rpc_accept on (metadata, stored token, strict) "
+                "whatever the FullMethod name, and the handler must run iff the call is accepted (c04_rpc_method_irrelevant, c04_rpc_handler_iff)")
     if k == "sig":
         return ("the signature gate's observed (status, handler ran) contradicts C04.Exec.sig_spec_ok: on GET/POST/PUT/DELETE in strict "
                 "mode the handler must run iff the header decrypts under a configured key, |timestamp-now| <= tolerance and the signature "
